@@ -19,12 +19,14 @@ import (
 // so the round trip offset -> (line, column) -> offset fails as soon as a multi-byte character
 // (or, at the end of the file, nothing at all) precedes the position. The rule is a small
 // dimension checker:
-//   units:   bytes | runes | utf16 | term | poly (constants) | unknown
-//   sources: len(..), key of `range <string>`, slice bounds, LineOffsets/lines → bytes;
-//            utf16.RuneLen → utf16; utf8.RuneLen → bytes; x++/x-- directly inside `range <string>`
-//            → runes; the column quantity (inverseLocation's column parameter, and the variable
-//            flowing into Location.Column) → the clause's unit;
-//   checks:  for x = e, x += e, x -= e and a ± b: both sides have the same unit (poly matches all).
+//
+//	units:   bytes | runes | utf16 | term | poly (constants) | unknown
+//	sources: len(..), key of `range <string>`, slice bounds, LineOffsets/lines → bytes;
+//	         utf16.RuneLen → utf16; utf8.RuneLen → bytes; x++/x-- directly inside `range <string>`
+//	         → runes; the column quantity (inverseLocation's column parameter, and the variable
+//	         flowing into Location.Column) → the clause's unit;
+//	checks:  for x = e, x += e, x -= e and a ± b: both sides have the same unit (poly matches all).
+//
 // Sibling clause coverage is checked as well: both switches have a clause for every length.Unit
 // constant (computed from the package).
 func rudUnits(w *World) {
